@@ -35,7 +35,7 @@ NOT_PROVED = ('absence of deadlock for arbitrary thread interleavings is explore
 def _cases(ctx, deep=False):
     rng = ctx.rng
     cases = []
-    seeds = ctx.scale(2, 6) * (2 if deep else 1)
+    seeds = ctx.scale(2, 3) * (2 if deep else 1)
     sizes = [(3, 2)] if not ctx.thorough else [(3, 2), (0, 0), (1, 1), (5, 4)]
     # corpus first
     cdir = os.path.join(coqrun.VERIF, 'corpus', 'C02')
@@ -74,7 +74,7 @@ def _cases(ctx, deep=False):
         cases.append({'cfg': {}, 'connect_raises': 'boom', 'seed': s, 'script': [['sync_open'], ['reconnect']]})
         cases.append({'cfg': {'hold_after': 5 + s}, 'seed': s, 'script': [['open'], ['sleep', 3.0], ['close'], ['reconnect']]})
     # histories: several rounds on one object, faults and closes mixed
-    for i in range(ctx.scale(150, 1500) * (2 if deep else 1)):
+    for i in range(ctx.scale(150, 1000) * (2 if deep else 1)):
         script = []
         for rnd in range(rng.randrange(1, 4)):
             if rng.random() < 0.5:
